@@ -7,8 +7,11 @@ git -C /repo apply "$patch" || { echo "patch does not apply"; exit 2; }
 trap 'git -C /repo checkout -- . ; git -C /repo clean -fdq src' EXIT
 cd /verif
 for p in "$@"; do
+  # the evidence file of the unchanged tree is kept: a run against a seeded change must not replace it
+  [ -f evidence/$p.json ] && cp evidence/$p.json .work/evidence-$p.keep
   out=$(./check "$p" --tier quick 2>&1)
   rc=$?
+  [ -f .work/evidence-$p.keep ] && mv .work/evidence-$p.keep evidence/$p.json
   sigs=$(echo "$out" | grep -o "witness \[[^]]*\]" | sort -u | tr '\n' ' ')
   echo "$p rc=$rc $(echo "$out" | grep -E '^(HELD|INCONCLUSIVE)' | head -1 | cut -c1-80) $sigs"
 done
